@@ -41,10 +41,16 @@
 
    Outside the model: request payload bytes (only the correlation id and the handle identify a request; sendString is assumed
    not to raise, i.e. requests are shorter than 4 GiB and transport.write does not raise, so brokerclient.py:370-373 is
-   not modelled); log output; user callbacks that synchronously re-enter the client from inside a Deferred callback
-   (a re-entrant call between two frames of one chunk equals the same call between two EData events, by C06_reassembly);
-   an endpoint whose connect() completes synchronously is equal to the event following immediately, because
-   _connect() is the last statement of both its callers. *)
+   not modelled); log output.
+   User callbacks/errbacks that synchronously re-enter the client are not events of THIS machine.  Where the Deferred
+   fires in tail position of a method (handleResponse, Deferred.cancel after the canceller, makeRequest on a closed
+   client) the re-entrant call equals the same call made as the next event (for two frames of one chunk: by
+   C06_client_chunking); the harness checks this on the real code (brokerclient_lib.reentrant_part / tree_part).  It is
+   NOT true inside the two loops that fire Deferreds while iterating over the table - _sendQueued (callback of a
+   no-reply request) and close() (errbacks): those are modelled by Model/BrokerClientHook.v (IConnOk / IClose take the
+   calls made by user code as a parameter), which is a conservative extension of this file (C10_reentrant_conservative).
+   An endpoint whose connect() completes synchronously is equal to the event following immediately, because
+   _connect() is the last statement of both its callers (checked by brokerclient_lib.sync_connect_part). *)
 From AV Require Import Base.Util Model.Framing.
 
 Inductive connector_t :=
